@@ -69,6 +69,7 @@ def run(prog: Program, rep: Report, tier: str) -> None:
     rep.rule("R13.6", "the day chosen once 'today' is ruled out is the earliest upcoming one: the selected weekdays are sorted ascending, the first one STRICTLY after today's weekday is taken, and only if there is none the first selected weekday (next week) - by the lemma in the evidence this is the nearest future occurrence, a full week ahead when only today is selected", 2)
     rep.rule("R13.7", "the selection is not consumed: pretty_next_run does not change the `days` collection it is given in place (augmented assignment, mutator method, item store / delete on the parameter "
                       "while it still names the caller's object) - the same set is reused for later calls and is the schedule object's own `days`", 0, structural=True)
+    rep.rule("R13.8", "every answer is decided from ONE reading of the clock: the current weekday and the current time of day compared with the start time stem from the same clock occurrence on every path", 1)
     rep.rule("R13.5", "'tomorrow' is answered exactly when the chosen day is the calendar day after today: (next == today + 1) or (next is Monday and today is Sunday), equivalently (next - today) mod 7 == 1; all other chosen days are named 'next <weekday>'", 2)
     rep.explanation = (
         "Decides the function by normal form, clause by clause: the clock domain of 'now' (LOCAL); the named weekday is a selected day (provenance); the no-days case and the three templates; "
@@ -107,6 +108,18 @@ def run(prog: Program, rep: Report, tier: str) -> None:
         rep.undecided("R13.1", "now is local", where, f"clock reads {unknown} are not in the LOCAL/UTC table")
     else:
         rep.ok("R13.1", "now is local", where, f"clock reads: {sorted(reads)}")
+    # ---- R13.8 one clock reading per answer
+    worst = None
+    n_multi = 0
+    for o in outs:
+        occ = {r[-1][1] for r in clock_reads(tuple(o.state.pc)) + (clock_reads(o.value) if o.kind == "return" else [])}
+        if len(occ) > 1:
+            n_multi += 1
+            worst = worst or sorted(occ)
+    if reads:
+        rep.check(worst is None, "R13.8", "weekday and time of day come from one clock reading", where,
+                  f"{n_multi} path(s) decide with {len(worst or [])} separate clock readings {worst}: between two readings the clock moves on - across midnight the weekday is yesterday's and the time "
+                  f"of day today's (or the other way round), and the text names a run that is already over", key="R13.8|pretty_next_run|readings")
     # ---- R13.3 / templates
     e = ("sym", "$e", dtyp)
     denum = prog.cls("aioswitcher.schedule:Days").enum
